@@ -89,7 +89,10 @@ type c04ValueCase struct {
 	exact  bool
 }
 
-func c04GenValue(rnd *mrand.Rand, exact bool) float64 {
+func c04GenValue(rnd *mrand.Rand, exact bool, ties bool) float64 {
+	if ties {
+		return float64(rnd.IntN(3) - 1) // extremes are contributed by several hosts
+	}
 	if exact {
 		switch rnd.IntN(6) {
 		case 0:
@@ -130,6 +133,11 @@ func c04GenCount(rnd *mrand.Rand, exact bool) float64 {
 		return float64(1+rnd.IntN(1000)) / 7
 	case 1:
 		return rnd.Float64()*1e6 + 1e-3
+	case 2:
+		if rnd.IntN(4) == 0 {
+			return rnd.Float64() * math.MaxFloat32 // CounterHostDistribution clamps these weights
+		}
+		return float64(1 + rnd.IntN(5))
 	default:
 		return float64(1 + rnd.IntN(5))
 	}
@@ -143,7 +151,8 @@ func c04GenValueCase(rnd *mrand.Rand) c04ValueCase {
 	}
 	nHosts := 1 + rnd.IntN(len(c04Hosts))
 	hostOff := rnd.IntN(len(c04Hosts))
-	counterOnly := rnd.IntN(6) == 0
+	counterOnly := rnd.IntN(8) == 0
+	ties := rnd.IntN(3) == 0
 	for l := 0; l < nLeaves; l++ {
 		nEv := 1
 		if rnd.IntN(3) == 0 {
@@ -161,23 +170,23 @@ func c04GenValueCase(rnd *mrand.Rand) c04ValueCase {
 				e.Kind = "C"
 			case kind < 8:
 				e.Kind = "V"
-				e.Vals = []float64{c04GenValue(rnd, c.exact)}
+				e.Vals = []float64{c04GenValue(rnd, c.exact, ties)}
 				if rnd.IntN(50) == 0 {
 					e.Count = 0 // counter == 0 is allowed when a value is set
 				}
 			case kind < 9:
 				e.Kind = "P"
-				e.Vals = []float64{c04GenValue(rnd, c.exact)}
+				e.Vals = []float64{c04GenValue(rnd, c.exact, ties)}
 			case kind < 11:
 				e.Kind = "A"
 				for j := rnd.IntN(4); j >= 0; j-- {
-					e.Vals = append(e.Vals, c04GenValue(rnd, c.exact))
+					e.Vals = append(e.Vals, c04GenValue(rnd, c.exact, ties))
 				}
 				e.Total = float64(len(e.Vals))
 				if rnd.IntN(3) == 0 {
 					for j := rnd.IntN(3); j >= 0; j-- {
 						cc := float64(1 + rnd.IntN(5))
-						e.Hist = append(e.Hist, [2]float64{c04GenValue(rnd, c.exact), cc})
+						e.Hist = append(e.Hist, [2]float64{c04GenValue(rnd, c.exact, ties), cc})
 						e.Total += cc
 					}
 				}
@@ -425,9 +434,31 @@ func c04RunValues(r *verifkit.Run, w *verifkit.Worker, n int, trials int) {
 // ---------------------------------------------------------------- uniques
 
 type c04Range struct {
-	Start  int64 `json:"start"`
-	Len    int   `json:"len"`
-	Stride int64 `json:"stride"`
+	Start  int64   `json:"start"`
+	Len    int     `json:"len"`
+	Stride int64   `json:"stride"`
+	Extra  []int64 `json:"extra,omitempty"` // keys whose 32-bit hash is 0 (the sketch keeps "zero" outside its table)
+}
+
+// three keys with uintHash32(key) == 0 (found by exhaustive search; re-checked at start-up)
+var c04ZeroHashKeys = []int64{0, 528038771, 1530889310}
+
+func (rg c04Range) items(dst []int64) []int64 {
+	for k := 0; k < rg.Len; k++ {
+		dst = append(dst, rg.Start+int64(k)*rg.Stride)
+	}
+	return append(dst, rg.Extra...)
+}
+
+// smallest prefix of the range that puts exactly `want` items into a sketch
+func c04LenForItems(start, stride int64, want int32) int {
+	var s ChUnique
+	n := 0
+	for s.itemsCount < want && n < 400000 {
+		s.Insert(uint64(start + int64(n)*stride))
+		n++
+	}
+	return n
 }
 
 func c04GenRanges(rnd *mrand.Rand) []c04Range {
@@ -435,7 +466,7 @@ func c04GenRanges(rnd *mrand.Rand) []c04Range {
 	if rnd.IntN(10) == 0 {
 		n = 2
 	}
-	shape := rnd.IntN(6)
+	shape := rnd.IntN(7)
 	var out []c04Range
 	for i := 0; i < n; i++ {
 		var l int
@@ -470,7 +501,14 @@ func c04GenRanges(rnd *mrand.Rand) []c04Range {
 		if rnd.IntN(5) == 0 && len(out) > 0 { // heavy overlap with an earlier leaf
 			start = out[rnd.IntN(len(out))].Start
 		}
-		out = append(out, c04Range{Start: start, Len: l, Stride: stride})
+		if shape == 2 && i == 0 { // a sketch that is exactly full: 65536 items, not thinned yet
+			l = c04LenForItems(start, stride, uniquesHashMaxSize)
+		}
+		rg := c04Range{Start: start, Len: l, Stride: stride}
+		if rnd.IntN(6) == 0 {
+			rg.Extra = c04ZeroHashKeys[:1+rnd.IntN(len(c04ZeroHashKeys))]
+		}
+		out = append(out, rg)
 	}
 	rnd.Shuffle(len(out), func(i, j int) { out[i], out[j] = out[j], out[i] })
 	return out
@@ -499,6 +537,9 @@ func c04SketchClass(ch *ChUnique, maxInSkip uint32) string {
 	if ch.skipDegree < maxInSkip {
 		return "skip-degree-not-adopted"
 	}
+	if ch.itemsCount > uniquesHashMaxSize || ch.sizeDegree > uniquesHashMaxSizeDegree {
+		return "size-degree-above-max" // table grown past the degree at which thinning starts
+	}
 	return ""
 }
 
@@ -518,10 +559,7 @@ func c04RunUniques(r *verifkit.Run, w *verifkit.Worker, n int, trials int) {
 		maxLeafSkip := uint32(0)
 		skips := map[uint32]bool{}
 		for i, rg := range ranges {
-			scratch = scratch[:0]
-			for k := 0; k < rg.Len; k++ {
-				scratch = append(scratch, rg.Start+int64(k)*rg.Stride)
-			}
+			scratch = rg.items(scratch[:0])
 			leaves[i].ApplyUnique(rng, scratch, float64(len(scratch)), TagUnion{I: int32(i + 1)})
 			for _, x := range scratch {
 				ref.Insert(uint64(x))
@@ -530,9 +568,9 @@ func c04RunUniques(r *verifkit.Run, w *verifkit.Worker, n int, trials int) {
 			skips[leaves[i].HLL.skipDegree] = true
 		}
 		for i := len(ranges) - 1; i >= 0; i-- {
-			rg := ranges[i]
-			for k := rg.Len - 1; k >= 0; k-- {
-				refRev.Insert(uint64(rg.Start + int64(k)*rg.Stride))
+			scratch = ranges[i].items(scratch[:0])
+			for k := len(scratch) - 1; k >= 0; k-- {
+				refRev.Insert(uint64(scratch[k]))
 			}
 		}
 		want := ref.Size(false)
@@ -565,7 +603,11 @@ func c04RunUniques(r *verifkit.Run, w *verifkit.Worker, n int, trials int) {
 					dst.Merge(rng, src) // → ChUnique.Merge
 				} else {
 					if err := dst.HLL.MergeRead(bytes.NewBuffer(ser(&src.HLL))); err != nil {
-						r.Violation("C04/unique-mergeread/error", "MergeRead of a sketch serialized by MarshallAppend failed: "+err.Error(), witness("MergeRead", steps, &dst.HLL))
+						key := "C04/unique-mergeread/error"
+						if firstBroken != nil { // the sketch was already out of shape after an earlier step
+							key = "C04/unique-" + map[string]string{"Merge": "merge-order", "MergeRead": "mergeread"}[firstBroken.op] + "/" + firstBroken.class
+						}
+						r.Violation(key, "MergeRead of a sketch serialized by MarshallAppend failed: "+err.Error(), witness("MergeRead", steps, &dst.HLL))
 					}
 					dst.Value.Merge(rng, &src.Value)
 				}
@@ -636,6 +678,14 @@ func c04RunUniques(r *verifkit.Run, w *verifkit.Worker, n int, trials int) {
 		if len(skips) > 1 {
 			w.Count("uniques.cases.leaf_skip_degrees_differ", 1)
 		}
+		for i := range leaves {
+			if leaves[i].HLL.hasZeroItem {
+				w.Count("uniques.leaves.with_zero_hash_item", 1)
+			}
+			if leaves[i].HLL.itemsCount == uniquesHashMaxSize && leaves[i].HLL.skipDegree == 0 {
+				w.Count("uniques.leaves.exactly_full_not_thinned", 1)
+			}
+		}
 		nontrivial := ref.skipDegree > 0 || len(skips) > 1
 		w.Case(nontrivial, fmt.Sprint(ranges))
 		if w.Index == 0 && it < 2 {
@@ -652,9 +702,15 @@ func TestVerifC04(t *testing.T) {
 		"(MultiValue.Merge, ItemValue.Merge) and event-by-event; non-trivial = ≥2 hosts and ≥2 valued events. " +
 		"uniques: 2–6 unique sets given as arithmetic ranges (1…300 000 items, overlapping) merged through MultiValue.Merge/ChUnique.Merge, ChUnique.MergeRead and a mix, " +
 		"in permutations and trees, against one-by-one insertion of all items; non-trivial = some sketch is thinned (skip degree ≥ 1) or leaf skip degrees differ; distinct = distinct event lists / range lists.")
+	for _, k := range c04ZeroHashKeys {
+		var ch ChUnique
+		if ch.uintHash32(uint64(k)) != 0 {
+			r.Inconclusive(fmt.Sprintf("harness constant: key %d does not hash to 0 any more", k))
+		}
+	}
 	workers := 16
-	nVal := r.N(4000, 280000)
-	nUniq := r.N(640, 20000)
+	nVal := r.N(4000, 60000)
+	nUniq := r.N(640, 8000)
 	trialsVal := 40
 	trialsUniq := r.N(12, 24)
 	r.Parallel(workers, "values", func(w *verifkit.Worker) {
